@@ -12,12 +12,14 @@ has not arrived; SpectatorTooFarBehind exactly when the host has overwritten it 
 the next `k` frames of `Hs` in order without gap or repeat, never beyond what has arrived, with
 `k = 1`, or `min(catchup_speed, frames behind, 59)` while more than `max_frames_behind` frames
 are buffered. Not covered by the theorem (decided on traces): the Disconnected statuses against
-the host's view (the status clause is `C06_values_and_status`), the host's side
-(`send_confirmed_inputs_to_spectators`), non-interference of attached spectators.
+the host's view (the status clause is `C06_values_and_status`), non-interference of attached
+spectators. The host's side is `C06_host_rows` (Proofs/SpecHost.lean): what
+`send_confirmed_inputs_to_spectators` offers.
 -/
 import GgrsModel.Model.Spectator
 import GgrsModel.Proofs.Monad
 import GgrsModel.Proofs.SpecRing
+import GgrsModel.Proofs.SpecHost
 
 namespace Ggrs.Spectator
 
@@ -96,3 +98,29 @@ theorem C06_replay (numPlayers : Nat) (host : Endpoint) (mfb cs : Nat) (hn : num
   exact ⟨h, advanceAfterPoll_spec y.1 s' y.2.1 y.2.2 res h hadv⟩
 
 end Ggrs.Spectator
+
+namespace Ggrs
+
+/-- **C06, the host's side (rollback mode, no disconnected players).** After ANY interleaving of
+remote-input arrivals and `advance_frame` calls, one more call offers its spectator endpoints
+(`Offers`: one `send_input` + `send_all_messages` per running spectator endpoint and frame) exactly
+the frames `next_spectator_frame, next_spectator_frame + 1, …` in this order, each the row of every
+player's real input of that frame (`rowMap`: the values the host's own queues hold, i.e. its
+confirmed timeline), never beyond `confirmed_frame()`, and nothing else in the call moves
+`next_spectator_frame` — so over a run the spectators are offered frames 0, 1, 2, … without gap
+or repeat. -/
+theorem C06_host_rows (x y : P2P × TLState) (h0 : ∃ gh, SessInv x.1 gh x.2 []) (hn : 0 ≤ x.1.nextSpectatorFrame)
+    (hrun : SStar x y) (now : Nat) (s' : P2P) (reqs' : List Request)
+    (hadv : y.1.advanceRollbackFrame now [] = .ok (s', reqs')) :
+    ∃ (gh gh1 : Ghost) (confirmed : Frame) (s1 s2 : P2P), SessInv y.1 gh y.2 [] ∧ gh1.specs = gh.specs ∧
+      y.1.confirmedFrame = .ok confirmed ∧ s1.nextSpectatorFrame = y.1.nextSpectatorFrame ∧
+      Offers gh1 y.1.sync.queues.length now s1 s2 ∧ s'.nextSpectatorFrame = s2.nextSpectatorFrame ∧
+      y.1.nextSpectatorFrame ≤ s'.nextSpectatorFrame ∧
+      s'.nextSpectatorFrame ≤ max y.1.nextSpectatorFrame (confirmed + 1) := by
+  obtain ⟨gh, hy⟩ := SessInv_run x y h0 hrun
+  have hny := nsf_run x y h0 hn hrun
+  obtain ⟨confirmed, s1, s2, gh1, hconf, hsp, hn1, _, hoff, hn', hl1, hl2⟩ :=
+    rollbackTick_offers y.1 s' gh y.2 [] reqs' now hy hny hadv
+  exact ⟨gh, gh1, confirmed, s1, s2, hy, hsp, hconf, hn1, hoff, hn', hl1, hl2⟩
+
+end Ggrs
